@@ -83,6 +83,9 @@ impl Check for C02 {
         let announce_log = *ch.pick(S_CFG, &[0i8, 1, -1]);
         let quantum = *ch.pick(S_CFG, &[0u64, 1, 8]);
         let one_step_ref = ch.chance(S_CFG, 1, 3);
+        // latency of the hosts' transmit-timestamp path: with more than a round trip the timestamp of a
+        // Delay_Req reaches the port after the matching Delay_Resp
+        w.hostf.tx_ts_latency = *ch.pick(S_CFG, &[0u128, 0, 0, 0, 100 * US, 1500 * US, 10 * MS]);
         // peer-to-peer delay mechanism on the link (both ends) instead of end-to-end
         let p2p = self.p2p;
         let offset_ns = ch.irange(S_CFG, -10_000_000_000, 10_000_000_000);
